@@ -68,6 +68,8 @@ func (e *Engine) callExternal(fn *types.Func, recv Value, args []Value, cx *ast.
 	case "log/slog.Error", "log/slog.Info", "log/slog.Warn", "log/slog.Debug", "log.Printf", "log.Println", "log.Print",
 		"log/slog.Logger.Error", "log/slog.Logger.Info", "log/slog.Logger.Warn", "log/slog.Logger.Debug":
 		return VTuple{}
+	case "time.Sleep":
+		return VTuple{}
 	case "sync.WaitGroup.Add", "sync.WaitGroup.Done", "sync.WaitGroup.Wait":
 		e.notes["assumed external: sync.WaitGroup used only to join; Wait returns after every Done"] = true
 		return VTuple{}
